@@ -3,6 +3,7 @@ package main
 // C10 — stopping: stop plumbing and deletion scope.
 
 import (
+	"strings"
 	"go/token"
 
 	"trzszlint/xssa"
@@ -22,6 +23,7 @@ func init() {
 			c.run("C10-R10", "LAUNCH: the stop question and the signal waiters are started with go", c10Launch)
 			c.run("C10-R11", "GUARD-DOM: chunk times that feed the stop's clean-up wait are not recorded for chunks acknowledged across a pause", c10ChunkTimes)
 			c.run("C10-R12", "ORDER: the receiver takes a chunk's begin time anew before every attempt to read its line", c10BeginPerAttempt)
+			c.run("C10-R13", "WHO-CALLS: what a cancelled step reports is the recorded cause, not the context's own error", c10Cause)
 			c.run("C10-S1", "shared with C07-R4: a directory is created — and so recorded for stop-and-delete — only when it did not exist", c07R4)
 			c.run("C10-R8", "MUST-PASS/WHO-CALLS: SIGINT/SIGTERM on the server reach the stop entry point", c10R8)
 			c.run("C10-S", "shared with C02: success only after the digest compare and the saved==size gate", func(c *Ctx) { c02Digest(c); c02SavedSize(c) })
@@ -1069,4 +1071,37 @@ func c10BeginPerAttempt(c *Ctx) {
 	}
 	hit, path := reachAvoid(read, func(x ssa.Instruction) bool { return x == read }, isNow)
 	c.check(hit == nil, "recvCheckV2/begin-time-per-attempt", c.ipos(read), "the begin time is taken anew before every attempt to read the line", "the line can be read again without taking the begin time again: a chunk acknowledged after a pause is recorded with the whole pause, and the next stop waits twice that long", c.pathStr(path)...)
+}
+
+// c10Cause: the per-file steps run under a context cancelled with a cause (the stop error, the peer's failure).
+// What they return goes to clientError / serverError, which tell "Stopped and deleted" from anything else by the
+// error's type and message. ctx.Err() of such a context is always context.Canceled: a step that returns it loses the
+// stop, the peer is sent a traced failure instead of the stop message and keeps the partial file.
+func c10Cause(c *Ctx) {
+	n := 0
+	for _, name := range []string{"trzszTransfer.sendPrefixHash", "trzszTransfer.recvPrefixHash", "trzszTransfer.sendFileDataV2", "trzszTransfer.recvFileDataV2"} {
+		f := c.fn(name)
+		ei := errIndex(f.Signature)
+		if ei < 0 {
+			continue
+		}
+		eachInstr(f, func(in ssa.Instruction) {
+			r, ok := in.(*ssa.Return)
+			if !ok {
+				return
+			}
+			for _, l := range origins(retVal(r, ei), originOpts{}) {
+				call, _ := callOf(l.V)
+				if call == nil {
+					continue
+				}
+				n++
+				isErr := call.Call.IsInvoke() && call.Call.Method.Name() == "Err" && strings.HasSuffix(call.Call.Value.Type().String(), "context.Context")
+				c.check(!isErr, name+"/returns-cause-not-ctx-err", c.ipos(r), "an error taken from the context is its recorded cause", "the step returns ctx.Err() — always 'context canceled' — instead of the recorded cause: a stop (and delete) is reported as an ordinary failure and the peer keeps the partial file")
+			}
+		})
+	}
+	if n == 0 {
+		c.undecided("returns-cause-not-ctx-err", "no error returns found in the per-file steps")
+	}
 }
